@@ -38,6 +38,42 @@ pub fn json_bytes(b: &[u8]) -> Value {
     Value::Array(b.iter().map(|x| Value::from(*x)).collect())
 }
 
+/// offsets of every big-endian u64 length / count / value field of a legacy aggregate encoding
+pub fn legacy_u64_fields(v: &Value) -> Option<(Vec<u8>, Vec<usize>)> {
+    let bytes = pack_legacy(v)?;
+    let mut offs = vec![];
+    let mut o = 1usize;
+    offs.push(o); // total_sigs
+    o += 8;
+    let sigs = v.get("signatures")?.as_array()?;
+    for s in sigs {
+        offs.push(o); // sig_reg size
+        o += 8;
+        offs.push(o); // reg party size
+        o += 8 + 96;
+        offs.push(o); // stake
+        o += 8;
+        offs.push(o); // sig size
+        o += 8;
+        let n = s.as_array()?.first()?.get("indexes")?.as_array()?.len();
+        offs.push(o); // nr_indexes
+        o += 8;
+        for _ in 0..n {
+            offs.push(o);
+            o += 8;
+        }
+        o += 48;
+        offs.push(o); // signer_index
+        o += 8;
+    }
+    offs.push(o); // len_v
+    offs.push(o + 8); // len_i
+    if o + 16 > bytes.len() {
+        return None;
+    }
+    Some((bytes, offs))
+}
+
 /// pack the JSON view into the legacy binary layout; None if the view is not packable (wrong sizes)
 pub fn pack_legacy(v: &Value) -> Option<Vec<u8>> {
     let mut out = vec![0u8]; // aggregate signature type prefix: concatenation
